@@ -114,10 +114,12 @@ class Sched(object):
                     self.deadlock = [t.name for t in self.threads.values() if not t.done]
                 self.fin.set()
                 return None
-            self.now = max(self.now, min(timers))
+            # a timed wait returns at or after its deadline: TIMER_EPS > 0 models "strictly after"
+            self.now = max(self.now, min(timers) + TIMER_EPS)
 
 
 S = None
+TIMER_EPS = 0        # modules whose code compares `deadline < now` set a small positive value
 _local = _t.local()
 
 
